@@ -451,16 +451,36 @@ func c041codec(c *an.Ctx, p *an.Prog) {
 			}
 		}
 	})
-	an.EnumPaths(enc, nil, nil, func(s *an.PathState) {
-		for _, e := range s.Events {
-			if e.Kind == "store" && e.Args[0].Op == "indexaddr" {
-				v := e.Args[1]
-				if v.Op == "load" && v.Args[0].Op == "fieldaddr" && v.Args[0].Args[0].Op == "param" {
-					encMap[v.Args[0].Aux] = e.Args[0].Args[1].K
+	nEnc := 0
+	for _, ci := range an.CallsTo(enc, saslPkg+".encodeLengthEncodedStrings") {
+		ci := ci
+		an.EnumPaths(enc, nil, ci, func(s *an.PathState) {
+			nEnc++
+			els, ok := sliceElems(s, s.CallArgs(ci)[1])
+			if !ok {
+				bad = append(bad, "the parts handed to the encoder are not a locally built slice: "+s.CallArgs(ci)[1].K)
+				return
+			}
+			if len(els) != 4 {
+				bad = append(bad, fmt.Sprintf("Encode writes %d parts, the wire format has 4", len(els)))
+			}
+			for i, v := range els {
+				if v != nil && v.Op == "load" && v.Args[0].Op == "fieldaddr" && v.Args[0].Args[0].Op == "param" {
+					if old, dup := encMap[v.Args[0].Aux]; dup && old != fmt.Sprintf("c:%d", i) {
+						bad = append(bad, "Encode writes "+v.Args[0].Aux+" at different positions on different paths")
+					}
+					encMap[v.Args[0].Aux] = fmt.Sprintf("c:%d", i)
+				} else if v != nil {
+					bad = append(bad, fmt.Sprintf("Encode writes %s at position %d", v.K, i))
+				} else {
+					bad = append(bad, fmt.Sprintf("Encode leaves position %d unset", i))
 				}
 			}
-		}
-	})
+		})
+	}
+	if nEnc == 0 {
+		bad = append(bad, "Encode never reaches the length-prefix encoder")
+	}
 	for i, f := range []string{"Login", "Password", "Service", "Realm"} {
 		want := fmt.Sprintf("c:%d", i)
 		if decMap[f] != want {
